@@ -52,7 +52,17 @@ impl Command for CommandImpl {
                     !target_ends_with_separator && target_path.extension().is_some()
                 };
 
-                if source_file && target_file {
+                // moving a file onto itself would overwrite (truncate) it and then remove it
+                let same_file = match (source_path.canonicalize(), target_path.canonicalize()) {
+                    (Ok(source_canonical), Ok(target_canonical)) => {
+                        source_canonical == target_canonical
+                    }
+                    _ => false,
+                };
+
+                if source_file && same_file {
+                    CommandResult::Continue(Some("true".to_string()))
+                } else if source_file && target_file {
                     match create_parent(&target_path) {
                         Ok(_) => {
                             let options = fs_extra::file::CopyOptions::new().overwrite(true);
